@@ -20,6 +20,7 @@ FUNCTIONS = [
     'hephaestus._run',
     'hephaestus.run.process_res',
     'hephaestus.run_parallel.process_res.update',
+    'hephaestus.run_parallel',
     'src.args.validate_args',
 ]
 TRUSTED = [
@@ -35,15 +36,63 @@ TRUSTED = [
     'time values are modelled as mathematical integers',
 ]
 ASSUMPTIONS = [
-    'sequential mode only: run_parallel (worker pool, callbacks mutating STATS from another thread) is outside this '
-    'family of technique',
+    'worker-pool mode: only the sequential shape of run_parallel is verified (the shutdown: closed and joined on every path '
+    'without KeyboardInterrupt, never terminated there; the batch size handed to the callback); the interleaving of callbacks '
+    'mutating STATS from the pool thread is outside this family of technique',
+    'ghost pool life cycle (contracts/driver.py __pool): Pool.close / join / terminate change it as documented for '
+    'multiprocessing.Pool; unknown code called from run_parallel (the batch loop _run and the closures it calls) does not '
+    'close, join or terminate the pool (the closures are checked syntactically, _run is under its own contract)',
     'sys.exit under --debug is modelled as abrupt termination (no postcondition is claimed for that path)',
 ]
-NOT_UNDER_CONTRACT = ['hephaestus.run_parallel', 'hephaestus.check_oracle_mul', 'hephaestus.gen_program (external contract)',
+NOT_UNDER_CONTRACT = ['hephaestus.run_parallel (concurrency; its shutdown shape IS under contract)', 'hephaestus.check_oracle_mul', 'hephaestus.gen_program (external contract)',
                       'hephaestus.save_stats (external contract)', 'hephaestus._report_failed']
 
 _H = None
 _BASE = None
+
+
+def custom_proof(tier):
+    """what the z3 obligation hephaestus.run_parallel/post[normal-end-closes-and-joins] leaves to the shape of the code
+    (syntactic, real AST): the closures handed to the batch loop never close / join / terminate the pool; terminate() occurs
+    only in a handler of KeyboardInterrupt; the pool is not used as a context manager (Pool.__exit__ is terminate(), which
+    the engine does not model)."""
+    import ast
+    repo = os.environ.get('HEPH_REPO', '/repo')
+    tree = ast.parse(open(os.path.join(repo, 'hephaestus.py')).read())
+    fn = next((n for n in tree.body if isinstance(n, ast.FunctionDef) and n.name == 'run_parallel'), None)
+    out = []
+
+    def ob(name, bad):
+        out.append(dict(name='hephaestus.run_parallel/shape[%s]' % name, function='hephaestus.run_parallel/shape',
+                        lineno=getattr(fn, 'lineno', 0), kind='proof', status='proved' if not bad else 'failed', secs=0,
+                        backend='syntactic', reason='; '.join(bad[:3])))
+    if fn is None:
+        ob('exists', ['hephaestus.run_parallel not found'])
+        return out
+    pools = {t.id for n in ast.walk(fn) if isinstance(n, ast.Assign) and isinstance(n.value, ast.Call)
+             and ast.unparse(n.value.func).endswith('Pool') for t in n.targets if isinstance(t, ast.Name)}
+    ob('one-pool', [] if len(pools) == 1 else ['pools created in run_parallel: %s' % sorted(pools)])
+
+    def life_calls(node):
+        return [c for c in ast.walk(node) if isinstance(c, ast.Call) and isinstance(c.func, ast.Attribute)
+                and c.func.attr in ('close', 'join', 'terminate') and isinstance(c.func.value, ast.Name)
+                and c.func.value.id in pools]
+    bad = []
+    for d in [n for n in ast.walk(fn) if isinstance(n, (ast.FunctionDef, ast.Lambda)) and n is not fn]:
+        bad += ['line %d: %s in a closure' % (c.lineno, ast.unparse(c)) for c in life_calls(d)]
+    ob('closures-only-submit', bad)
+    in_kbd = set()
+    for h in [n for n in ast.walk(fn) if isinstance(n, ast.ExceptHandler)]:
+        if h.type is not None and 'KeyboardInterrupt' in ast.unparse(h.type):
+            in_kbd |= {id(c) for c in life_calls(h)}
+    ob('terminate-only-after-interrupt', ['line %d: %s outside a KeyboardInterrupt handler' % (c.lineno, ast.unparse(c))
+                                          for c in life_calls(fn) if c.func.attr == 'terminate' and id(c) not in in_kbd])
+    ob('pool-not-a-context-manager', ['line %d: with %s' % (w.lineno, ast.unparse(i.context_expr)) for w in ast.walk(fn)
+                                      if isinstance(w, ast.With) for i in w.items
+                                      if any(isinstance(e, ast.Name) and e.id in pools for e in ast.walk(i.context_expr))
+                                      or ast.unparse(i.context_expr).endswith('Pool')
+                                      or (isinstance(i.context_expr, ast.Call) and ast.unparse(i.context_expr.func).endswith('Pool'))])
+    return out
 
 
 def _load():
@@ -95,6 +144,51 @@ class StubCompiler:
         return {f: ['error in ' + f] for f in sc['errors']}, []
 
 
+REAL_GEN = [0, 0]      # records built by the real gen_program / records needed
+
+
+def _real_gen_program(h, pid, dirname, good, bad):
+    """hephaestus.gen_program itself with stubbed stages (generator, transformations, translator): returns its ProgramRes for
+    a program whose well-typed variant is the file `good` and whose ill-typed variant (if any) is `bad`; None if the real
+    function cannot be driven this way (then the hand-built record is used)"""
+    names = ('TRANSLATORS', 'ProgramProcessor', 'process_cp_transformations', 'process_ncp_transformations')
+    saved = {n: getattr(h, n, None) for n in names}
+    ca = h.cli_args
+    saved_ca = {n: getattr(ca, n, None) for n in ('examine', 'keep_all', 'only_correctness_preserving_transformations',
+                                                  'options')}
+
+    class _Proc:
+        def __init__(self, *a, **k):
+            pass
+
+        def get_program(self):
+            return None, True
+
+        def get_transformations(self):
+            return []
+    try:
+        h.TRANSLATORS = {k: (lambda *a, **kw: object()) for k in (saved['TRANSLATORS'] or {ca.language: None})}
+        h.ProgramProcessor = _Proc
+        h.process_cp_transformations = lambda *a, **k: good
+        h.process_ncp_transformations = lambda *a, **k: ((bad, 'injected') if bad else None)
+        ca.examine, ca.keep_all = False, False
+        ca.only_correctness_preserving_transformations = False
+        if not isinstance(getattr(ca, 'options', None), dict) or 'Translator' not in ca.options:
+            ca.options = {'Translator': {}}
+        res = h.gen_program(pid, dirname, ('p1', 'p2'))
+        if getattr(res, 'failed', True) or not isinstance(res.stats.get('programs'), dict) \
+                or set(res.stats['programs']) != ({good, bad} if bad else {good}):
+            return None
+        return res
+    except Exception:
+        return None
+    finally:
+        for n, v in saved.items():
+            setattr(h, n, v)
+        for n, v in saved_ca.items():
+            setattr(ca, n, v)
+
+
 def run_scenario(h, sc):
     """sc: dict(programs=[dict(failed, incorrect, ok_err, bad_err)], crash).  returns a disagreement string or None"""
     td = h.cli_args.test_directory
@@ -129,6 +223,13 @@ def run_scenario(h, sc):
                 mism_fail = True
         oracles[pid] = h.ProgramRes(False, {'transformations': [], 'error': 'injected' if p['incorrect'] else None,
                                             'programs': progs, 'time': 0})
+        # the record check_oracle reads is built by the REAL gen_program (its pipeline stages stubbed): the order of the
+        # entries of stats['programs'] -- which check_oracle's message logic depends on -- is the one the real code produces
+        real = _real_gen_program(h, pid, batchdir, good, bad if p['incorrect'] else None)
+        REAL_GEN[1] += 1
+        if real is not None:
+            REAL_GEN[0] += 1
+            oracles[pid] = real
         if sc['crash']:
             expected[pid] = ('crash', None)
         elif mism_pass or mism_fail:
@@ -155,7 +256,8 @@ def run_scenario(h, sc):
             return 'pid %d: crash message expected, got %r' % (pid, err)
         if kind == 'mismatch':
             mp, mf, good = info
-            if mf and not mp and not str(err).startswith('SHOULD NOT BE COMPILED'):
+            if mf and not str(err).startswith('SHOULD NOT BE COMPILED'):
+                # (also when the well-typed variant of the same program was rejected: the accepted ill-typed one is flagged)
                 return 'pid %d: message %r lacks the SHOULD NOT BE COMPILED prefix' % (pid, err)
             if mp and not mf and err != 'error in ' + good:
                 return 'pid %d: message %r is not the compiler error' % (pid, err)
@@ -276,9 +378,14 @@ def bounded(tier, seed, stop_first=False, only_oracle=False):
                                            what='counting', detail=bad))
     finally:
         _cleanup()
-    return dict(evaluations=evals, distinct_nontrivial=len(distinct),
+    if REAL_GEN[1] and not REAL_GEN[0]:
+        violations.append(dict(check='bounded[gen_program-not-drivable]', function='hephaestus.gen_program', what='harness',
+                               detail='the real gen_program could not be driven with stubbed stages in any scenario: the order of '
+                                      'stats[programs] it produces is unchecked'))
+    return dict(evaluations=evals, distinct_nontrivial=len(distinct), records_from_real_gen_program='%d of %d' % tuple(REAL_GEN),
                 rule='every batch of <= %d programs (tool-failed / well-typed only / well-typed + ill-typed) x every '
-                     'combination of compiler verdicts per file x crash or not, run through the real check_oracle with a '
+                     'combination of compiler verdicts per file x crash or not (the per-program record is produced by the real '
+                     'gen_program with stubbed generator / transformation / translator stages), run through the real check_oracle with a '
                      'stubbed compiler on a real temporary directory tree and compared with the decision table of the '
                      'property (reported set, message, saved test case, removed scratch directories); plus 4 sequential '
                      'run() sessions with a stubbed generator (totals and faults.json). Non-trivial: at least one program '
